@@ -275,6 +275,9 @@ pub(crate) struct BudgetEnforcer {
     defined_anchors: FastHashSet<usize>,
     containers: SmallVec<[ContainerState; 64]>,
     policy: EnforcingPolicy,
+    /// Per-document enforcement: the ratio breach of the current document has already been
+    /// returned from `observe` (at its end) and is not repeated by `finalize`.
+    ratio_breach_reported: bool,
 }
 
 #[derive(Clone, Copy, Debug)]
@@ -298,6 +301,7 @@ impl BudgetEnforcer {
             defined_anchors: FastHashSet::with_capacity(256),
             containers: SmallVec::new(),
             policy,
+            ratio_breach_reported: false,
         }
     }
 
@@ -315,6 +319,7 @@ impl BudgetEnforcer {
             self.depth = 0;
             self.containers.clear();
             self.defined_anchors.clear();
+            self.ratio_breach_reported = false;
             return Ok(());
         }
         self.report.events += 1;
@@ -405,7 +410,17 @@ impl BudgetEnforcer {
                     });
                 }
             }
-            Event::DocumentEnd => {}
+            Event::DocumentEnd => {
+                if self.policy == EnforcingPolicy::PerDocument {
+                    // Per-document enforcement: the ratio heuristic is a verdict on this
+                    // document, not on whichever document happens to be the last of the stream.
+                    self.report.anchors = self.defined_anchors.len();
+                    if let Some(breach) = self.alias_anchor_ratio_breach() {
+                        self.ratio_breach_reported = true;
+                        return Err(breach);
+                    }
+                }
+            }
             Event::Nothing => {}
             Event::StreamStart | Event::StreamEnd => {}
         }
@@ -533,21 +548,28 @@ impl BudgetEnforcer {
     pub fn finalize(mut self) -> BudgetReport {
         self.report.anchors = self.defined_anchors.len();
 
-        if self.budget.enforce_alias_anchor_ratio
+        if !self.ratio_breach_reported
+            && let Some(breach) = self.alias_anchor_ratio_breach()
+        {
+            self.report.breached = Some(breach);
+        }
+
+        self.report
+    }
+
+    /// The alias/anchor ratio heuristic on the counters collected so far.
+    fn alias_anchor_ratio_breach(&self) -> Option<BudgetBreach> {
+        (self.budget.enforce_alias_anchor_ratio
             && self.report.aliases >= self.budget.alias_anchor_min_aliases
             && self.report.aliases
                 > self
                     .budget
                     .alias_anchor_ratio_multiplier
-                    .saturating_mul(self.report.anchors)
-        {
-            self.report.breached = Some(BudgetBreach::AliasAnchorRatio {
-                aliases: self.report.aliases,
-                anchors: self.report.anchors,
-            });
-        }
-
-        self.report
+                    .saturating_mul(self.report.anchors))
+        .then_some(BudgetBreach::AliasAnchorRatio {
+            aliases: self.report.aliases,
+            anchors: self.report.anchors,
+        })
     }
 }
 
